@@ -48,6 +48,7 @@ def load_prop(pid):
 # ---------------------------------------------------------------------------
 def _run_one(case):
     faulthandler.dump_traceback_later(RUN_TIMEOUT, exit=True)
+    seams.reset_process_state()
     try:
         return _P.run_case(case)
     finally:
